@@ -39,6 +39,16 @@ CHECKS = {
             "DTLS 1.3 numbers are recovered with the sender's own key material through library code; race reports are verdicts only when "
             "they touch sequence-number/epoch state, others are listed as observations.",
             "DESIGN.md §4 C09"),
+    "C12": ("fault_enumeration",
+            "runtime differential monitoring: the library's FragmentBuffer and fragmentHandshake against an independent byte-coverage "
+            "reassembler over enumerated partitions, permutations and interleavings; end-to-end handshakes at tiny MTUs on the simnet",
+            "Receiver: all message lengths <= L, all compositions into <= k fragments, all arrival permutations, a zero-length fragment "
+            "at every cut offset / an exact duplicate at every arrival position (exhaustive for the small space), plus PRNG interleavings "
+            "of three message sequences with multi-fragment records. After every pushed record the surfaced messages must equal the "
+            "reference's (content, order, once, never early; retransmission flag). Sender: every (length, MTU) pair. End to end: "
+            "handshakes of every variant at MTU 32/60/100 with reordered datagrams must complete and obey the MTU on the wire.",
+            "Fragments are assumed to partition the message (the property's quantifier); overlapping or inconsistent fragments are C08 input.",
+            "DESIGN.md §4 C12"),
 }
 
 NOT_YET = "monitor not built yet in this session (see DESIGN.md for the planned design)"
